@@ -133,12 +133,60 @@ def run_cases(ctx, n_models, n_states, gen_opts=None, seed_offset=0):
   return cases, disagreements, spec_failures, hist
 
 
+def layer_b(ctx, n_cases):
+  """exact-integer tie of Layer B: the real `scan.tree` (both directions) and
+  `scan.link_types` against `Kin.scanFwd` / `Kin.scanRev` / `Kin.linkSlices` on random forests
+  of up to 40 links with an injective integer step (a misrouted index cannot cancel)"""
+  _setup()
+  import types as pytypes
+  import jax.numpy as jp
+  from brax import scan
+  from brax.base import Q_WIDTHS, QD_WIDTHS
+  rng = np.random.default_rng(ctx.seed + 77)
+  M = 1000003
+  lines, expect, what = [], [], []
+  for _ in range(n_cases):
+    n = int(rng.integers(1, 41))
+    parents = [int(rng.integers(-1, i)) if i else -1 for i in range(n)]
+    if rng.random() < 0.3:   # chains and stars
+      parents = [i - 1 for i in range(n)] if rng.random() < 0.5 else [-1] + [0] * (n - 1)
+    typs = ''.join(rng.choice(list('f123'), size=n))
+    sysm = pytypes.SimpleNamespace(link_types=typs, link_parents=tuple(parents))
+    a = rng.integers(0, 1000, size=n)
+    fwd = scan.tree(sysm, lambda y, x: x % M if y is None else (31 * y + x) % M, 'l', jp.asarray(a))
+    rev = scan.tree(sysm, lambda y, x: (x + 7) % M if y is None else (x + 37 * y) % M, 'l',
+                    jp.asarray(a), reverse=True)
+    hdr = [str(n)] + [str(p) for p in parents] + [str(n)] + [str(int(v)) for v in a]
+    lines.append(' '.join(['scanfwd'] + hdr)); expect.append([int(v) for v in np.asarray(fwd)]); what.append(('scan.tree', parents))
+    lines.append(' '.join(['scanrev'] + hdr)); expect.append([int(round(float(v))) for v in np.asarray(rev)]); what.append(('scan.tree reverse', parents))
+    nq = sum(Q_WIDTHS[t] for t in typs); nv = sum(QD_WIDTHS[t] for t in typs)
+    q = rng.integers(0, 10, size=nq); qd = rng.integers(0, 10, size=nv)
+    def f(typ, qs, qds):
+      qs = qs.reshape((-1, Q_WIDTHS[typ])); qds = qds.reshape((-1, QD_WIDTHS[typ]))
+      hq = jp.zeros(qs.shape[0]); hqd = jp.zeros(qs.shape[0])
+      for c in range(Q_WIDTHS[typ]): hq = hq * 10 + qs[:, c]
+      for c in range(QD_WIDTHS[typ]): hqd = hqd * 10 + qds[:, c]
+      return hq, hqd
+    hq, hqd = scan.link_types(sysm, f, 'qd', 'll', jp.asarray(q, dtype=jp.float64), jp.asarray(qd, dtype=jp.float64))
+    lines.append(' '.join(['slices', typs, str(nq)] + [str(int(v)) for v in q] + [str(nv)] + [str(int(v)) for v in qd]))
+    expect.append([int(v) for pair in zip(np.asarray(hq), np.asarray(hqd)) for v in pair]); what.append(('scan.link_types', typs))
+  out = C.run_driver('Driver/C01.lean', lines)
+  dis = []
+  for o, e, w in zip(out, expect, what):
+    got = [int(t) for t in o.split()] if not o.startswith('bad') else o
+    if got != e:
+      dis.append(dict(what=f'Layer B: {w[0]} differs from its model', shape=w[1], lean=got, real=e))
+  return len(lines), dis
+
+
 def correspond(ctx):
   cases, dis, fails, hist = run_cases(ctx, ctx.budget(30, 300), 3)
+  n_b, dis_b = layer_b(ctx, ctx.budget(12, 200))
+  dis = dis + dis_b
   distinct = len({(c['types'], tuple(c['parents'])) for c in cases})
   sample = dict(link_types=cases[0]['types'], parents=cases[0]['parents'], q=cases[0]['q'].tolist()[:8])
   return dict(
-      evaluations=3 * len(cases), distinct_nontrivial=distinct,
+      evaluations=3 * len(cases) + n_b, distinct_nontrivial=distinct,
       rule='generator forests (1-6 links, free/world roots, 1-3 stacked hinge/slide joints with arbitrary axes, '
            'offsets, anchors) x 3 states (q in [-2,2], unit root quaternions, qd in [-1,1]); each case: real '
            'kinematics.forward vs Lean Kin.forward (1e-9), Lean Mj.kinematics vs mujoco.mj_forward (1e-8), and real '
@@ -149,7 +197,7 @@ def correspond(ctx):
                     'scan.tree / scan.link_types modelled as the recursion/slicing they implement (Layer B stage 1)'],
       assumptions=['IEEE round-off not modelled; theorems over the reals'],
       explanation='Model<->implementation and Spec<->MuJoCo legs of the triangle; theorem Model = Spec in Props/C01.lean',
-      extra=dict(link_type_histogram=hist))
+      extra=dict(link_type_histogram=hist, layer_b_cases=n_b))
 
 
 def search(ctx, broken, corr):
